@@ -808,6 +808,20 @@ fn oracle_seq(r: &Req, out: &str) -> Result<(), String> {
         // a problem that is both primal and dual infeasible admits either certificate:
         // only "solved vs infeasible" is a contradiction
         if full(s.solution.status) && full(f.solution.status) && (c1 == 1 || c2 == 1) {
+            // nearly infeasible instances: when the Solved run needs multipliers (or a primal
+            // point) a million times larger than the data, the problem is within ~1e-6 (relative)
+            // of infeasibility, the documented infeasibility test (relative to ‖z‖·|b'z|, C02) is
+            // met by moderate iterates as well, and which verdict is reached first depends on
+            // the trajectory (here: on the equilibration, which an updated solver keeps from
+            // the old data).  Both verdicts are truthful to their documented tests; the
+            // instance does not decide the property.
+            let sol = if c1 == 1 { &s.solution } else { &f.solution };
+            let big = sol.x.iter().chain(sol.z.iter()).fold(0.0f64, |a, v| a.max(v.abs()));
+            let data = u.q.iter().chain(u.b.iter()).fold(1.0f64, |a, v| a.max(v.abs()));
+            if big > 1e6 * data {
+                tally("final comparison inconclusive (nearly infeasible instance: Solved needs multipliers > 1e6 x data)");
+                return Ok(());
+            }
             return Err(format!("updated solver: {:?}, fresh solver on the final data: {:?}", s.solution.status, f.solution.status));
         }
         tally("final comparison inconclusive (reduced-accuracy verdicts differ)");
